@@ -314,6 +314,27 @@ theorem C03_fused_eq_unfused (D : Dispatch) (hD : D.complete = true) (m : Mode) 
       simp [increment, stmtUnfused, binop, store, normalize, Operand.isConst, Mode.isStrict, Dispatch.of, hadd, hinc, arith]
     all_goals (cases inRange kx (w : Int) <;> simp [store])
 
+/-- **C03 (statement forms and optimizer levels agree), every step.** The fused Increment equals
+Load/Push/Add/Store for ANY step operand — constant or not, same kind or not — because it stores its
+result through the same type boundary as Store. -/
+theorem C03_fused_eq_unfused_any (D : Dispatch) (hD : D.complete = true) (m : Mode) (kx : Kind) (nx : Int)
+    (c : Operand) : increment D m kx nx c = stmtUnfused D m .add kx nx c := by
+  have hadd : ∀ k, k ∈ D.add := fun k => by simpa [Dispatch.of] using complete_mem D hD .add k
+  have hinc : ∀ k, k ∈ D.incr := fun k => by simpa using complete_incr D hD k
+  cases c with
+  | var k n =>
+    by_cases hk : kx = k
+    · subst hk
+      cases m <;>
+        simp [increment, stmtUnfused, binop, store, normalize, normalize.promote, Operand.isConst, Operand.kindOrd,
+          Mode.isStrict, Dispatch.of, hadd, hinc, arith]
+    · have hord : kx.ord ≠ k.ord := fun h => hk (ord_inj _ _ h)
+      by_cases hlt : kx.ord < k.ord <;> cases m <;>
+        simp [increment, stmtUnfused, binop, store, normalize, normalize.promote, Operand.isConst, Operand.kindOrd,
+          Mode.isStrict, Dispatch.of, hadd, hinc, arith, hk, hord, hlt]
+  | const kc nc => exact C03_fused_eq_unfused D hD m kx nx (.const kc nc) rfl
+  | constFlt w fr => exact C03_fused_eq_unfused D hD m kx nx (.constFlt w fr) rfl
+
 /-- `x++` is `x += 1` is `x = x + 1`, and the variable keeps its type (no drift to `int`) -/
 theorem C03_incr_keeps_type (D : Dispatch) (hD : D.complete = true) (m : Mode) (kx : Kind) (nx : Int) :
     increment D m kx nx (.const .int 1) = .ok kx (wrap kx (nx + 1)) ∧
